@@ -98,3 +98,36 @@ func (it *Interp) allocOracle(ev AllocEvent) {
 		it.job.noteUnknown("alloc@" + it.curFn)
 	}
 }
+
+// hash/crc32 digest objects (crc32.NewIEEE / crc32.New): running CRC as an engine object.
+type crcDigest struct {
+	poly uint64
+	cur  *Term
+}
+
+var crcDigestT types.Type = types.NewNamed(types.NewTypeName(0, nil, "symgo.crcDigest", nil), types.NewStruct(nil, nil), nil)
+
+func init() {
+	intercepts["hash/crc32.NewIEEE"] = func(it *Interp, fn *ssa.Function, a []Value) Value {
+		return &IfaceV{T: crcDigestT, V: &crcDigest{poly: 0xedb88320, cur: it.ctx.BV(0, 32)}}
+	}
+	intercepts["hash/crc32.New"] = func(it *Interp, fn *ssa.Function, a []Value) Value {
+		return &IfaceV{T: crcDigestT, V: &crcDigest{poly: it.crcPoly(a[0]), cur: it.ctx.BV(0, 32)}}
+	}
+}
+
+func (it *Interp) crcDigestMethod(d *crcDigest, name string) Value {
+	switch name {
+	case "Write":
+		return &EngineFunc{"Write", func(it *Interp, a []Value) Value {
+			s := a[0].(*SliceV)
+			d.cur = it.crc(d.poly, d.cur, s).(*Term)
+			return TupleV{it.ctx.BV(uint64(s.ln), 64), &IfaceV{}}
+		}}
+	case "Sum32":
+		return &EngineFunc{"Sum32", func(it *Interp, a []Value) Value { return d.cur }}
+	case "Reset":
+		return &EngineFunc{"Reset", func(it *Interp, a []Value) Value { d.cur = it.ctx.BV(0, 32); return nil }}
+	}
+	return nil
+}
